@@ -158,6 +158,15 @@ INFER_PROGS = [
     ("max!/str", "pub const M: &str = konst::max!(\"world\", \"hello\");"),
     ("min_by!/untyped", "pub const M: u32 = konst::min_by!(3u32, 10, |&l, &r| konst::const_cmp!(l, r / 4));"),
     ("max_by_key!/untyped", "pub const M: u32 = konst::max_by_key!(3u32, 10, |x| *x % 4);"),
+    # operands that borrow from a temporary created in the operand expression itself: std's functions take them as arguments, which
+    # keeps the temporaries alive to the end of the caller's statement - a macro that binds its operands with `let` does not
+    ("min!/temporaries", "pub fn f(a: &str, b: &str) -> usize { konst::min!(a.to_uppercase().as_str(), b.to_lowercase().as_str()).len() }"),
+    ("max!/temporaries", "pub fn f(a: &str, b: &str) -> usize { konst::max!(a.to_uppercase().as_str(), b.to_lowercase().as_str()).len() }"),
+    ("min_by!/temporaries", "pub fn f(a: &str, b: &str) -> usize { konst::min_by!(a.to_uppercase().as_str(), b.to_lowercase().as_str(), |l, r| konst::const_cmp!(l.len(), r.len())).len() }"),
+    ("max_by_key!/temporaries", "pub fn f(a: &str, b: &str) -> usize { konst::max_by_key!(a.to_uppercase().as_str(), b.to_lowercase().as_str(), |x| x.len()).len() }"),
+    ("option::unwrap_or!/temporaries", "pub fn f(a: Option<&str>, b: &str) -> usize { konst::option::unwrap_or!(a, b.to_lowercase().as_str()).len() }"),
+    ("result::unwrap_or!/temporaries", "pub fn f(a: Result<&str, ()>, b: &str) -> usize { konst::result::unwrap_or!(a, b.to_lowercase().as_str()).len() }"),
+    ("option::map!/temporaries", "pub fn f(b: &str) -> Option<usize> { konst::option::map!(Some(b.to_lowercase().as_str()), |s| s.len()) }"),
     ("unwrap_or!/untyped", "pub const M: u8 = konst::option::unwrap_or!(Some(3u8), 5);"),
     ("result::unwrap_or!/untyped", "pub const M: u8 = konst::result::unwrap_or!(Ok::<u8, ()>(3), 5);"),
 ]
